@@ -7,6 +7,7 @@ import (
 	"go/token"
 	"go/types"
 	"path/filepath"
+	"regexp"
 	"sort"
 	"strings"
 
@@ -733,4 +734,44 @@ func (x *Ctx) poolDiscipline(rule string, pkgs ...string) {
 		got[n[strings.LastIndex(n, ".")+1:]] = true
 	}
 	x.C.Obl(rule, "pool-release:canary", "lint/testdata/canary/pool/pool.go", "the three seeded releases-while-referenced (captured by a returned iterator, returned itself, view of its bytes returned) are flagged; release after the last use and returning a copy are not", len(got) == 3 && got["LazyLines"] && got["Leak"] && got["View"], fmt.Sprint(got))
+}
+
+var inParam = regexp.MustCompile(`\bin(\d+)\b`)
+
+// returnedFunc describes the function a constructor-like function returns on its single path: the function that
+// runs, its paths, and a translation of its terms into one vocabulary - the outer function's parameters are
+// arg0, arg1, ... and (as the rules were written) the returned function's own parameters are arg0, arg1, ... too.
+// For a function literal the paths are enumerated in the context of its creator (captured variables hold their
+// values, captured function values are called through); for a function or method value they are its own paths
+// with the receiver / nothing substituted.
+type returnedFunc struct {
+	Fn    *ssa.Function
+	Paths []*paths.Path
+	Tr    func(*paths.Term) string
+}
+
+func (x *Ctx) returnedFunc(p *paths.Path, t *paths.Term) *returnedFunc {
+	for t != nil && t.Op == "conv" && len(t.Args) == 1 {
+		t = t.Args[0] // conversion of the literal to a named function type
+	}
+	inner, bind := x.closureEnv(p, t)
+	if inner == nil || len(inner.Blocks) == 0 {
+		return nil
+	}
+	if t.Op == "closure" && paths.BoundMethod(t) == nil {
+		if ps, err := paths.EnumerateClosure(p, t); err == nil {
+			return &returnedFunc{inner, ps, func(tt *paths.Term) string { return inParam.ReplaceAllString(tt.String(), "arg$1") }}
+		}
+	}
+	ps := x.pathsQuiet(inner)
+	if ps == nil {
+		return nil
+	}
+	return &returnedFunc{inner, ps, func(tt *paths.Term) string {
+		s := tt.String()
+		for fv, par := range bind {
+			s = strings.ReplaceAll(s, fv, par)
+		}
+		return s
+	}}
 }
